@@ -45,7 +45,7 @@ static std::string step(Live &lv, rm::Space &m, const Op &op, std::string &msg) 
         return "";
     }
     bool checked = op.kind == 0;
-    unsigned long foreign0 = foreign_entry_calls();
+    unsigned long foreign0 = foreign_entry_calls(), hook0 = mem_hook_calls();
     RegisterAccess a = checked ? register_set(&lv.t, op.h, to_value(op.vtype, op.raw)) : register_set_unsafe(&lv.t, op.h, to_value(op.vtype, op.raw));
     const char *nm = checked ? "set" : "set_unsafe";
     if (foreign_entry_calls() != foreign0) { msg = vp::fmt("%s: the validator callback was handed an entry pointer that does not lie in the table's entry array (a copy?): a validator that identifies its register by that pointer answers for the wrong one", nm); return std::string(nm) + ":validator-handed-foreign-entry"; }
@@ -67,6 +67,7 @@ static std::string step(Live &lv, rm::Space &m, const Op &op, std::string &msg) 
         return "";
     }
     if (a.code != REG_ACCESS_SUCCESS) { msg = vp::fmt("%s of acceptable value %llx on %s register (constraint %s lo=%llx hi=%llx): %s", nm, (unsigned long long)v, rm::type_name[r.type], rm::ckind_name[r.ckind], (unsigned long long)r.lo, (unsigned long long)r.hi, code_name(a.code)); return std::string(nm) + ":refused-although-acceptable"; }
+    if (write_hooked(ar) && mem_hook_calls() == hook0) { msg = vp::fmt("%s into an area whose write accessor is the application's own (in front of a memory mirror read by reg_mem_read) succeeded without calling that accessor", nm); return std::string(nm) + ":write-accessor-bypassed"; }
     m.store(r, v);
     long d = lv.diff(m);
     if (d >= 0) { msg = vp::fmt("after %s of %llx word %ld differs from the reference serialisation (%s-endian table)", nm, (unsigned long long)v, d, t.big ? "big" : "little"); return std::string(nm) + ":storage"; }
